@@ -222,32 +222,14 @@ def run(ctx):
             obs = "Err %s" % hist.ERRMAP.get(o["err"], "EOther")
         dec = "None" if o.get("decoded") is None else "(Some %s)" % hist.cq_list(hist.cq_value(hist.py_val(v)) for v in o["decoded"])
         terms.append("(%s, %s, %s, %s)" % (schq, tup, obs, dec))
-    header = hist.HEADER + """
-Definition tuple_case := (schema * tuple * res bytes * option row)%type.
-Definition res_bytes_eqb (a b : res bytes) : bool :=
-  match a, b with Ok x, Ok y => bytes_eqb x y | Err x, Err y => err_eqb x y | Panic, Panic => true | _, _ => false end.
-Definition tuple_model_agrees (c : tuple_case) : bool :=
-  let '(sch, m, enc, dec) := c in
-  res_bytes_eqb (encode_tuple sch m) enc &&
-  match enc, dec with
-  | Ok bs, Some r => match decode_row sch bs with Ok r' => row_eqb r r' | _ => false end
-  | _, _ => true
-  end.
-(* the property on the observed bytes: decoding what Go encoded gives the values back *)
-Definition tuple_spec (c : tuple_case) : bool :=
-  let '(sch, m, enc, dec) := c in
-  match enc, dec with
-  | Ok _, Some r => row_eqb r (map (fun fd => tget (fd_name fd) m) sch)
-  | Ok _, None => false
-  | _, _ => true
-  end.
-"""
+    # tuple_case, tuple_model_agrees, tuple_spec_strict: coq/Spec/TupleObs.v (C08_tuple_agreement_implies_strict_acceptance)
+    header = hist.HEADER + "\nFrom Mkdb Require Import Spec.TupleObs.\n"
     okc, res, lg = vlib.run_coq_cases("c08_tuple", header, terms, "tuple_case",
-                                      {"TM": "tuple_model_agrees", "TS": "tuple_spec"}, shard=200)
+                                      {"TM": "tuple_model_agrees", "TS": "tuple_spec_strict"}, shard=200)
     if not okc:
         raise RuntimeError("coq evaluation failed: " + lg[-3000:])
     for i in res["TS"][:2]:
-        out["spec_violations"].append({"tuple_case": inputs[i], "observed": touts[i], "what": "Tuple.Decode(Tuple.Encode(row)) differs from row"})
+        out["spec_violations"].append({"tuple_case": inputs[i], "observed": touts[i], "what": "Tuple.Encode / Decode: a valid row refused or stored with another size, an invalid one accepted, or Decode(Encode(row)) differs from row (Spec/TupleObs.v tuple_spec_strict)"})
     for i in res["TM"][:2]:
         out["model_mismatches"].append({"tuple_case": inputs[i], "observed": touts[i]})
     ctx.report.coverage.update({
